@@ -33,9 +33,43 @@ CHECKS = {
     "C13": ("runtime monitor: forced bytes replayed on an independent no-forcing byte engine; ff tokens / Constraint / process_prompt identities",
             "Every byte reported as forced must be the only byte an independent single-byte engine allows there; ff tokens decode to a prefix of them, commit, and leave the same acceptable continuations; prompt processing satisfies decode(P')++pending == decode(P)++forced.",
             "The byte engine is the reference for 'only byte allowed'."),
+    "C03": ("runtime monitor: dead-end detector at every visited state + liveness against reference DFA / Earley + bounded-progress roll-outs",
+            "Every state of extending-then-closing walks over productive grammars is monitored for an empty mask / no-extension stop in a non-accepting state; where a reference model exists the byte history must be live in it; the 'eventually' half is restated as a closing roll-out reaching a stop within 400 steps.",
+            "TokenParser API used directly so that StopReason is visible; no finite run decides the unbounded liveness claim, which is why it is restated as bounded progress."),
+    "C06": ("runtime monitor: outputs generated through the masks judged by an exact-arithmetic validator (+ jsonschema crate), plus mutated-instance negative probes",
+            "Complete outputs produced through the masks are parsed strictly and validated against the schema by the harness validator (decider for numbers and duplicate keys) with the jsonschema crate as second opinion; mutated constructive instances that are invalid must not be accepted.",
+            "Oracle = ref_json + jsonschema 0.29; disagreements are inconclusive; hostname length limit not asserted."),
+    "C07": ("runtime monitor: constructive valid instances, standard serialisation, token-by-token acceptance",
+            "Instances accepted by both validators are serialised the standard way (with the whitespace the options allow), tokenised three different ways over three kinds of vocabulary and must be accepted token by token and end accepting.",
+            "Only the fully supported keyword subset is generated; instances both validators accept."),
+    "C14": ("runtime monitor: exhaustive interleaving enumeration of clone op lists + real threads with injected yields at the shared-lexer lock (hook H1) + rayon batch masks; TSan build in thorough",
+            "All interleavings of short per-clone op lists are executed on one thread and every result compared with a private reference; 2..16 real threads run op lists with seeded yields around the shared-lexer mutex and are checked offline; llg_par_compute_mask batches are compared with sequential masks.",
+            "Whole API calls are atomic w.r.t. the shared lexer (single mutex); evidence reports lock-owner switches actually observed."),
+    "C15": ("runtime monitor: hook H2 delivers the grammar before/after optimisation; bounded-language equality by independent Kleene iteration",
+            "For every grammar compiled through the real entry point the set of all terminal sequences up to length 6 (special symbols as bracket pseudo-terminals, parametric rules over reachable values) is computed before and after optimisation and must be identical, as must the list of special symbols.",
+            "Bounded length (6, lowered to 3 under a set-size cap, below that inconclusive)."),
+    "C16": ("runtime monitor: model-based testing of trie / token sets / adapters against naive models; overflow+debug-assert build; Miri on the toktrie-only part",
+            "Random vocabularies and op sequences are executed against Vec/BTreeSet models; the trie walk is compared with per-token evaluation under random table DFAs with a stack monitor; tokenizer.json and tiktoken adapters are compared with independently computed token bytes; the same scenarios run with debug assertions and under Miri.",
+            "Miri covers the toktrie-only scenarios (the HF adapter pulls C code)."),
+    "C17": ("runtime monitor: C functions mirrored step by step on Rust objects, canary-guarded buffers of many lengths, AddressSanitizer build",
+            "llg_* calls are mirrored on Rust Constraint/Matcher objects; destination buffers of many lengths carry canaries and a fill pattern; the same workload runs under AddressSanitizer so that reads outside the engine's mask abort.",
+            "The C API is exercised from Rust (no C compiler in the loop)."),
+    "C18": ("runtime monitor: protocol state machine over Matcher/Constraint call sequences incl. illegal calls; reference stop-sequence model over a reference DFA",
+            "Stop decisions are compared with a reference TokenParser driven without check_stop; text at stop must be complete for an independent byte engine; illegal calls on clones must fail for good or change nothing; the stop controller is compared with an earliest-match model.",
+            "Ambiguous stop matches (several lengths ending at the same earliest position) are skipped."),
+    "C19": ("runtime monitor: special-id scan of every mask of text grammars; token-reference grammars vs harness set model; marker tokenisation checks",
+            "No special id may appear in any mask of a text grammar; masks at <name>/<[..]> positions must equal the denoted sets exactly; names in plain text never tokenise to specials while marker forms do.",
+            "HF added-token matching is adapter policy and not asserted."),
+    "C20": ("runtime monitor: hostile-input workers with RLIMIT_AS / per-case RLIMIT_CPU, crash attribution by journal, overflow-checks vs release join (+ ASan in thorough)",
+            "~30 classes of hostile inputs are built and driven in worker processes; any death by signal, stack overflow, allocation abort or CPU-budget overrun, any panic in a legal call, any answer from a failed engine, and any input on which the overflow-checks build panics with an arithmetic overflow while the release build returns an engine is a violation.",
+            "CPU budget 20 s (quick) / 120 s (thorough) per case stands in for 'loops without bound'."),
 }
 
 LEVEL = {k: "exploration" for k in CHECKS}
+
+import subprocess
+FIXES = [l.split()[0] for l in subprocess.run(["git", "-C", "/repo", "log", "--oneline"], capture_output=True, text=True).stdout.splitlines() if " fix:" in l]
+
 
 def main():
     props = [json.loads(l) for l in open("properties.jsonl")]
@@ -47,6 +81,7 @@ def main():
             "enable": "the harness crate depends on llguidance with features=[\"verif_hooks\"] (path dependency on /repo/parser), so every check build has the hooks on",
             "baseline_off_cmd": "cd /repo && cargo test --workspace --no-fail-fast --offline",
             "source_commits": ["79dec15"],
+            "fix_commits": FIXES,
             "add_only": True,
         },
         "engines": [{
